@@ -38,7 +38,9 @@ EXPLANATION = "update data flow proved for all values under the all-gather contr
 
 
 def cases(tier):
-    return D.update_params_cases("ddp") + ["trace/step", "trace/alloc", "ri/world2", "ri/world3", "ribare/ddp"]
+    # ctor/ddp: the C14 constructor contract (owner used for selection / state == owner whose gather-buffer segment holds the block, all ranks
+    # agree), re-discharged here because "every rank applies every owner's direction exactly once" rests on it
+    return D.update_params_cases("ddp") + ["trace/step", "trace/alloc", "ri/world2", "ri/world3", "ribare/ddp", "ctor/ddp"]
 
 
 def _ri_case(case):
@@ -98,6 +100,9 @@ def _ri_case(case):
 
 
 def run_case(case, tier, seed):
+    if case == "ctor/ddp":
+        from checks import c14
+        return [dict(r, replay=dict(kind="ddp_native")) for r in c14._ctor_case(case)]
     if case.startswith("update/"):
         return D.run_update_params(case)
     if case == "trace/step":
@@ -116,7 +121,7 @@ def bounded(tier, seed):
     combos = [(1, -1), (2, -1), (2, 1), (3, -1), (4, 2), (4, -1)] if tier != "quick" else [(1, -1), (2, -1), (2, 1), (4, 2)]
     evals, viol, distinct, samples = 0, [], set(), []
     for (world, group), comm, cp in itertools.product(combos, ("f32", "bf16", "f16") if tier != "quick" else ("f32", "bf16"), (False, True)):
-        for k in range(1 if tier == "quick" else 4):
+        for k in range(2 if tier == "quick" else 4):
             # every block present at every step avoids the starvation pattern of known finding F5 (a hang under the simulator)
             bad, hist = native_ddp_safe(world, group, comm, cp, seed * 10 + k)
             evals += 1
@@ -145,7 +150,8 @@ def _native_ddp_hist(world, group, comm, cp, seed, mode):
     import torch
     from distributed_shampoo import shampoo_types as st
     rng = random.Random(f"{world}/{group}/{comm}/{cp}/{seed}")
-    shapes = [(4, 2), (2, 2), (6,), (2, 2), (3, 2)]
+    # odd seeds: block sizes whose 64-byte-aligned size differs between the communication dtype and the parameter dtype (numel 17, 33, 20)
+    shapes, maxdim = ([(4, 2), (2, 2), (6,), (2, 2), (3, 2)], 2) if seed % 2 == 0 else ([(4,), (17,), (4,), (4,), (33,), (20,)], 64)
     steps = 4
     if mode == "safe":
         hist = [[True] * len(shapes) if rng.random() < 0.8 else [False] * len(shapes) for _ in range(steps)]
@@ -158,7 +164,7 @@ def _native_ddp_hist(world, group, comm, cp, seed, mode):
         from distributed_shampoo.distributed_shampoo import DistributedShampoo
         gp = torch.Generator().manual_seed(seed)  # NOTE: the global RNG is shared by the simulated ranks (threads): use private generators
         params = [torch.nn.Parameter(torch.randn(s, generator=gp)) for s in shapes]
-        opt = DistributedShampoo(params, lr=0.05, betas=(0.9, 0.99), epsilon=1e-6, momentum=0.5, max_preconditioner_dim=2, precondition_frequency=2,
+        opt = DistributedShampoo(params, lr=0.05, betas=(0.9, 0.99), epsilon=1e-6, momentum=0.5, max_preconditioner_dim=maxdim, precondition_frequency=2,
                                  start_preconditioning_step=2, use_merge_dims=False, grafting_config=st.AdaGradGraftingConfig(epsilon=1e-8), distributed_config=dcfg)
         g = torch.Generator().manual_seed(seed + 1)
         traj = []
@@ -208,6 +214,8 @@ def replay_file(doc):
             for comm in ("f32", "bf16"):
                 for cp in (False, True):
                     bad, hist = _native_ddp_hist(world, group, comm, cp, 0, "safe")
+                    if not bad:
+                        bad, hist = _native_ddp_hist(world, group, comm, cp, 1, "safe")
                     if bad:
                         return True, f"world {world} group {group} {comm} communicate_params={cp}: {bad}"
         # mask transitions where only another rank's blocks change
